@@ -125,6 +125,11 @@ type Schema struct {
 	File  protoreflect.FileDescriptor
 	Files *protoregistry.Files
 	Types *dynamicpb.Types
+
+	// Prebuilt schemas carry descriptors that were not built from this model
+	// (compiled from j5s): Build is a no-op and Lookup maps model messages to them.
+	Prebuilt bool
+	Lookup   func(m *Message) protoreflect.MessageDescriptor
 }
 
 func camel(s string) string {
@@ -222,6 +227,9 @@ func upperFirst(s string) string {
 // Build links the schema into descriptors (private registry; the global
 // registries are only read).
 func (s *Schema) Build() error {
+	if s.Prebuilt {
+		return nil
+	}
 	if s.Package == "" {
 		s.Package = "vt.v1"
 	}
@@ -384,6 +392,9 @@ func (s *Schema) Build() error {
 }
 
 func (s *Schema) Desc(m *Message) protoreflect.MessageDescriptor {
+	if s.Lookup != nil {
+		return s.Lookup(m)
+	}
 	return s.File.Messages().ByName(protoreflect.Name(m.Name))
 }
 
